@@ -142,6 +142,56 @@ impl Storage for TagStorage {
     }
 }
 
+thread_local! {
+    static REFERENCE: std::cell::RefCell<Option<Vec<(Vec<u8>, Vec<u8>)>>> = const { std::cell::RefCell::new(None) };
+}
+
+/// The raw storage of an application that has seen bank and staking activity (balances, a delegation, a pending
+/// unbonding in the queue): another application is later built on a storage holding these entries, and must hold
+/// exactly them afterwards (building is not a block update).
+fn reference_entries() -> Vec<(Vec<u8>, Vec<u8>)> {
+    REFERENCE.with(|r| {
+        if r.borrow().is_none() {
+            let mut app = App::default();
+            let user = app.api().addr_make("reference-user");
+            let block = app.block_info();
+            app.init_modules(|router, api, storage| {
+                router.bank.init_balance(storage, &user, vec![cosmwasm_std::coin(1000, "TOKEN")]).unwrap();
+                router
+                    .staking
+                    .add_validator(api, storage, &block, cosmwasm_std::Validator::create("refval".to_string(), cosmwasm_std::Decimal::percent(10), cosmwasm_std::Decimal::percent(100), cosmwasm_std::Decimal::percent(1)))
+                    .unwrap();
+            });
+            app.execute(user.clone(), CosmosMsg::Staking(StakingMsg::Delegate { validator: "refval".into(), amount: cosmwasm_std::coin(100, "TOKEN") })).unwrap();
+            app.execute(user, CosmosMsg::Staking(StakingMsg::Undelegate { validator: "refval".into(), amount: cosmwasm_std::coin(40, "TOKEN") })).unwrap();
+            *r.borrow_mut() = Some(app.storage().range(None, None, cosmwasm_std::Order::Ascending).collect());
+        }
+        r.borrow().clone().unwrap()
+    })
+}
+
+/// What the raw storage of a built application must be: the supplied entries with the init function's changes.
+fn expected_raw(rt: &Rt, storage_tagged: bool) -> std::collections::BTreeMap<Vec<u8>, Vec<u8>> {
+    let mut m: std::collections::BTreeMap<Vec<u8>, Vec<u8>> = if storage_tagged { rt.storage().0.range(None, None, cosmwasm_std::Order::Ascending).collect() } else { Default::default() };
+    let seen = m.get(&b"seed-marker"[..]).map(|v| String::from_utf8_lossy(v).to_string()).unwrap_or_else(|| "none".into());
+    m.insert(b"init-marker".to_vec(), format!("init-{}|saw:{}", rt.seed, seen).into_bytes());
+    m.remove(&b"seed-victim"[..]);
+    m.insert(b"seed-overwrite".to_vec(), b"new".to_vec());
+    m
+}
+
+fn raw_line(entries: impl Iterator<Item = (Vec<u8>, Vec<u8>)>) -> String {
+    let v: Vec<(Vec<u8>, Vec<u8>)> = entries.collect();
+    let mut bytes = vec![];
+    for (k, val) in &v {
+        bytes.extend_from_slice(&(k.len() as u32).to_be_bytes());
+        bytes.extend_from_slice(k);
+        bytes.extend_from_slice(&(val.len() as u32).to_be_bytes());
+        bytes.extend_from_slice(val);
+    }
+    format!("raw: {} entries fp={:016x}", v.len(), fp(&bytes))
+}
+
 /// Run-time values (vary with VERIF_SEED).
 pub struct Rt {
     pub seed: u64,
@@ -154,6 +204,9 @@ impl Rt {
         s.set(b"seed-victim", b"doomed");
         s.set(b"seed-overwrite", b"old");
         s.set(b"seed-untouched", b"kept");
+        for (k, v) in reference_entries() {
+            s.set(&k, &v);
+        }
         TagStorage(s)
     }
     /// The block handed to `with_block`: boundary values rotate with the seed (height 0 / 1 / max, time 0, empty chain id).
@@ -242,6 +295,8 @@ where
             _ => "err".into(),
         }
     };
+    // the complete raw storage, before any probe writes
+    t.push(raw_line(app.storage().range(None, None, cosmwasm_std::Order::Ascending)));
     // init ran exactly once, against the storage that was supplied (observed first: later probes may write)
     t.push(format!("init: count={} marker={}", counter.get(), app.storage().get(b"init-marker").map(|v| String::from_utf8_lossy(&v).to_string()).unwrap_or_else(|| "none".into())));
     let show_key = |k: &[u8]| app.storage().get(k).map(|v| String::from_utf8_lossy(&v).to_string()).unwrap_or_else(|| "none".into());
@@ -271,6 +326,7 @@ where
 fn expected_line(slot: &str, tagged: bool, rt: &Rt, storage_tagged: bool, defaults: &[String]) -> String {
     let default_of = |prefix: &str| defaults.iter().find(|l| l.starts_with(prefix)).cloned().unwrap_or_default();
     match (slot, tagged) {
+        ("raw", _) => raw_line(expected_raw(rt, storage_tagged).into_iter()),
         ("init", _) => format!("init: count=1 marker=init-{}|saw:{}", rt.seed, if storage_tagged { format!("seeded-{}", rt.seed) } else { "none".into() }),
         ("storage", true) => format!("storage: seeded-{} victim=none overwrite=new untouched=kept", rt.seed),
         ("api", true) => "api: tagapi".into(),
@@ -405,7 +461,7 @@ fn main() {
     let mut rep = Report::new();
     // thorough: the same chains with several run-time seeds
     let seeds: Vec<u64> = if tier.is_thorough() { (0..16).map(|i| seed * 1000 + i).collect() } else { (0..4).map(|i| seed * 4 + i).collect() };
-    let slots = ["init", "storage", "api", "block", "bank", "custom", "wasm", "staking", "distribution", "ibc", "gov", "stargate"];
+    let slots = ["raw", "init", "storage", "api", "block", "bank", "custom", "wasm", "staking", "distribution", "ibc", "gov", "stargate"];
     for s in seeds {
         let rt = Rt { seed: s };
         let chains = match catch(|| builder_chains(&rt)) {
@@ -444,7 +500,7 @@ fn main() {
                 let got = t.iter().find(|l| l.starts_with(&format!("{}:", slot))).cloned().unwrap_or_default();
                 rep.bump("c20/slots_checked");
                 if got != want {
-                    let sig = if tagged { format!("configured-{}-lost", slot) } else if slot == "init" { "init-function-not-run-once-against-the-supplied-storage".to_string() } else { format!("unconfigured-{}-is-not-the-default", slot) };
+                    let sig = if slot == "raw" { "built-app-storage-is-not-the-supplied-one-plus-the-init-functions-changes".to_string() } else if tagged { format!("configured-{}-lost", slot) } else if slot == "init" { "init-function-not-run-once-against-the-supplied-storage".to_string() } else { format!("unconfigured-{}-is-not-the-default", slot) };
                     rep.violate("C20", sig, format!("steps {:?}: probe shows [{}], expected [{}]", steps, got, want), json!({"steps": steps, "probe": t, "seed": s}));
                 }
             }
